@@ -129,6 +129,11 @@ bool QXmppBookmarkManager::setBookmarks(const QXmppBookmarkSet &bookmarks)
 bool QXmppBookmarkManager::handleStanza(const QDomElement &stanza)
 {
     if (stanza.tagName() == u"iq") {
+        // only responses are handled here, requests must get the default error reply
+        if (const auto type = stanza.attribute(u"type"_s); type == u"get" || type == u"set") {
+            return false;
+        }
+
         if (QXmppPrivateStorageIq::isPrivateStorageIq(stanza)) {
             QXmppPrivateStorageIq iq;
             iq.parse(stanza);
